@@ -382,7 +382,7 @@ class GFA:
 
         for line in opened_file:
             if line.startswith("S"):
-                line = line.strip().split("\t")
+                line = line.rstrip("\r\n").split("\t")
                 assert len(line) >= 3  # must be at least 3 columns for "S id seq"
                 if low_memory:
                     self.add_node(line[1], "", line[3:])
@@ -396,7 +396,7 @@ class GFA:
         opened_file.close()
 
         for e in edges:
-            e = e.strip().split("\t")
+            e = e.rstrip("\r\n").split("\t")
             assert len(e) >= 6  # must be at least 6 columns (L id1 dir1 id2 dir2 overlap)
             e_tags = e[6:]
             e = e[1:6]
